@@ -27,6 +27,12 @@ CLAIMS = {
  "C13": dict(engine="S", design="§3 C13", technique="deterministic simulation: seeded histories of API operations against a block life-cycle reference model, free() interposed by an LD_PRELOAD shim, GC disabled and injected at seeded trace lines",
    text="Seeded exploration of histories {evaluate (32 kernels, two back ends), operators, alias, struct alias, read, pickle, to_format, ==, refused call, del, gc} with gc.collect() injected inside operations: after every operation every block of a reachable tensor is live and unchanged, no arena address is freed twice or unknown, no kernel call leaves a block that is neither handed back nor freed; at every gc operation all blocks of unreachable tensors are freed; at the end nothing is live.",
    note="Immediacy of release is not demanded; CPython refcounting, weakrefs and cffi are real; the free() seam is the shim."),
+ "C14": dict(engine="T", design="§3 C14", technique="deterministic simulation: real caller threads under a seeded baton scheduler (sys.settrace line events, heap calls and simulated locks as pre-emption points), simulated heap, injected GC; seeded search over schedules",
+   text="Seeded exploration of schedules: 2-4 (thorough up to 16) simulated caller threads issue evaluate / evaluate_cffi / tensor_method calls over shared and distinct problems, cached and never-seen, on both back ends, while the scheduler pre-empts at line events of tensora and cffi's recompiler, inside running kernels at their heap calls and at simulated-lock operations, and injects collections. Every concurrent call must return bit for bit what the same call returned alone (or raise the same exception type); no other exception, no deadlock on simulated locks, no crash, heap invariants, every block a call's kernel allocated ends up in that call's output and nobody else's, nothing live after the results are dropped. Every failing schedule is recorded as (thread, thread-local step) -> decision and replays exactly.",
+   note="Two kernels never execute machine code truly in parallel (a kernel body between two heap calls is an atomic step); locks created dynamically by third-party code stay real (a stall is counted inconclusive, never a violation); files outside the trace allow-list run atomically."),
+ "C15": dict(engine="P", design="§3 C15", technique="deterministic simulation of the process environment: fresh interpreters with seeded PYTHONHASHSEED executing seeded request histories (library and CLI entry points, cache clears, LRU eviction floods) compared request by request with a canonical baseline interpreter",
+   text="Seeded exploration of histories x hash seeds x entry points: per run a baseline interpreter (hash seed 0, every distinct request once) and a variant interpreter (seeded hash seed; shuffled, repeated requests through generate_code, the CLI with permuted -f / omitted dense formats / stdout or -o, tensor_method with shuffled formats dicts, the private cache entry with formats in another order, evaluate warm / after cache_clear / after an eviction flood). Equal canonical request key => equal text or raw result digest; CLI = library; two requests that receive the identical TensorMethod object must be the same problem (names, index names, every mode and mode ordering, format order).",
+   note="Refused requests are compared by outcome class, not by message text; canonical request keys are computed by the generator from its own expression tree, not by tensora; the pair of interpreters per run costs ~2-7 s, so far fewer runs per hour than the in-process engines."),
 }
 checks = []
 for pid, c in CLAIMS.items():
@@ -52,6 +58,8 @@ m = {
  "engines": [
   {"name": "K", "path": "tsim/engines/kernel.py", "serves_properties": ["C02", "C04", "C05"], "kind_free_text": "one problem's three kernels on the simulated heap, garbage twins"},
   {"name": "S", "path": "tsim/engines/session.py", "serves_properties": ["C13", "C02"], "kind_free_text": "histories of Python API operations, simulated heap + injected GC"},
+  {"name": "T", "path": "tsim/engines/threads.py", "serves_properties": ["C14"], "kind_free_text": "N caller threads under the baton scheduler (tsim/sched.py), simulated locks, heap, GC"},
+  {"name": "P", "path": "tsim/engines/process.py", "serves_properties": ["C15"], "kind_free_text": "fresh interpreter per history with its own PYTHONHASHSEED (tsim/pchild.py)"},
  ],
  "checks": checks,
  "notes": "Deterministic simulation with fault injection; see DESIGN.md. Replay: bin/check <id> --replay <file>. Fixes to /repo are listed in known_findings.json.",
